@@ -26,24 +26,38 @@ NamesN == {"fftn", "ifftn", "rfftn", "irfftn"}
 AllNames == Names1 \cup Names2 \cup NamesN
 
 (***************************************************************************)
-(* DFT with tabulated twiddles; multiplications by 1, -1, i, -i and of 0   *)
-(* are exact shortcuts                                                     *)
+(* DFT with tabulated twiddles; multiplications by 1, -1, i, -i, of 0 and  *)
+(* of small integers are exact shortcuts                                   *)
 (***************************************************************************)
 \* TLC does not cache constant definitions that rest on recursive operators, so the
 \* tables (twiddles, 1/sqrt n) are computed once in the initial predicate and carried in
 \* the state variable `tab` (never changed)
 VARIABLE tab
 FMinusOne == Neg(FOne)
-CMulW(x, w) ==
-  IF x.re = FZero /\ x.im = FZero THEN CZero
-  ELSE IF w.im = FZero /\ w.re = FOne THEN x
-  ELSE IF w.im = FZero /\ w.re = FMinusOne THEN CNeg(x)
-  ELSE IF w.re = FZero /\ w.im = FOne THEN C(Neg(x.im), x.re)
-  ELSE IF w.re = FZero /\ w.im = FMinusOne THEN C(x.im, Neg(x.re))
-  ELSE CMul(x, w)
+\* a Fix value that is a small integer k (|k| < 2^15): limbs <<0, 0, 0, 0, k>>
+SmallInt(v) == v.m = <<>> \/ (Len(v.m) = 5 /\ v.m[1] = 0 /\ v.m[2] = 0 /\ v.m[3] = 0 /\ v.m[4] = 0)
+IntOf(v) == IF v.m = <<>> THEN 0 ELSE IF v.n THEN -v.m[5] ELSE v.m[5]
+\* <<x w, x conj(w)>>: the two products share their four real products
+MulPair(x, w) ==
+  IF x.re = FZero /\ x.im = FZero THEN <<CZero, CZero>>
+  ELSE IF w.im = FZero /\ w.re = FOne THEN <<x, x>>
+  ELSE IF w.im = FZero /\ w.re = FMinusOne THEN <<CNeg(x), CNeg(x)>>
+  ELSE IF w.re = FZero /\ w.im = FOne THEN <<C(Neg(x.im), x.re), C(x.im, Neg(x.re))>>
+  ELSE IF w.re = FZero /\ w.im = FMinusOne THEN <<C(x.im, Neg(x.re)), C(Neg(x.im), x.re)>>
+  ELSE LET int == SmallInt(x.re) /\ SmallInt(x.im)
+           ac == IF int THEN MulInt(w.re, IntOf(x.re)) ELSE IF x.re = FZero THEN FZero ELSE FMul(x.re, w.re)
+           bd == IF int THEN MulInt(w.im, IntOf(x.im)) ELSE IF x.im = FZero THEN FZero ELSE FMul(x.im, w.im)
+           ad == IF int THEN MulInt(w.im, IntOf(x.re)) ELSE IF x.re = FZero THEN FZero ELSE FMul(x.re, w.im)
+           bc == IF int THEN MulInt(w.re, IntOf(x.im)) ELSE IF x.im = FZero THEN FZero ELSE FMul(x.im, w.re)
+       IN <<C(Sub(ac, bd), Add(ad, bc)), C(Add(ac, bd), Sub(bc, ad))>>
+\* X[k] = sum_n x[n] W^(sgn k n),  W = exp(2 pi i / N);  W^(N-j) = conj(W^j)
 DftT(x, sgn) ==
-  LET N == Len(x)  W == tab.tw[N]
-  IN [k \in 1..N |-> CSum([n \in 1..N |-> CMulW(x[n], W[(sgn * (k-1) * (n-1)) % N])])]
+  LET N == Len(x)  W == tab.tw[N]  H == N \div 2
+      P == [n \in 1..N |-> [j \in 0..H |-> MulPair(x[n], W[j])]]
+      Prod(n, j) == IF j <= H THEN P[n][j][1] ELSE P[n][N - j][2]
+  IN [k \in 1..N |-> CSum([n \in 1..N |-> Prod(n, (sgn * (k-1) * (n-1)) % N)])]
+
+IDft1(x) == LET y == DftT(x, 1) IN [k \in 1..Len(x) |-> CDivSmall(y[k], Len(x))]
 
 \* 1/sqrt(n) as Fix: integer square root of 2^120 div n by bisection on BigInt
 RECURSIVE ISqrtR(_, _, _)
